@@ -57,7 +57,7 @@ func compareMultiset(res *mk.Result, out *ref.Output) string {
 		return fmt.Sprintf("%d columns returned, %d expected (%v vs %v)", len(res.Header), len(out.Header), res.Header, out.Header)
 	}
 	for i := range out.Header {
-		if res.Header[i] != out.Header[i] {
+		if res.Header[i] != out.Header[i] && !(i < len(out.HeaderFree) && out.HeaderFree[i]) {
 			return fmt.Sprintf("column %d is named %q, expected %q", i, res.Header[i], out.Header[i])
 		}
 	}
